@@ -18,7 +18,7 @@ theorem C15_nodes (w : World) (u : VId) (rv : VId → String) (re : Option (LId 
 def DrawnFrom (w : World) (ms : List VId) (e : PEdge) (l : LId) : Prop :=
   ∃ a b rest, w.ends l = some a :: some b :: rest ∧ l ∈ w.links a ∧
     indexOf? ms a = some e.src ∧ indexOf? ms b = some e.dst ∧
-    e.arrows = ((w.lcls l).kind == .directed)
+    e.arrows = ((w.lcls l).subDirected)
 
 /-- every edge corresponds to a link between the two MEMBER vertices it joins, oriented v1→v2,
     arrowed iff the link is a directed edge; in particular no edge or node is produced for a
@@ -44,7 +44,7 @@ theorem C15_arrowed_count (w : World) (u : VId) (rv : VId → String) (re : Opti
     (h : pyvisNet w u rv re = .ok (nodes, edges)) (i j : Nat) (a b : VId)
     (hi : (w.members u)[i]? = some a) (hj : (w.members u)[j]? = some b) :
     (edges.filter (fun e => e.arrows && e.src == i && e.dst == j)).length =
-      ((w.links a).filter (fun l => (w.lcls l).kind == .directed &&
+      ((w.links a).filter (fun l => (w.lcls l).subDirected &&
         (w.ends l).take 2 == [some a, some b])).length := by
   have _ := hs  -- symmetry is not needed for the count
   obtain ⟨_, he⟩ := pyvisNet_ok w u rv re nodes edges h
